@@ -70,15 +70,29 @@ def _twin_job(job):
             got.append(st.compute_logw_and_logz(1.0))
             np.random.set_state(rng_state)
             counts["accessor_calls"] += len(got)
+            pre = rec.snapshot(st)
             seen = set()
             for g in got:
                 counts["scribbled_arrays"] += _scribble(g, np, seen)
+            post = rec.snapshot(st)
+            rec._emit("Accessor", name="getters/to_dict/results/posterior", stable=bool(pre == post))
 
     hk = psrun.hooks_on(rec)
     with hk:
         _verif.set_sink(caller)
         try:
             s.run(n_total=job["n_total"], progress=False)
+            # the caller keeps stepping with the public sample(): its return value is handed to the user too
+            for _ in range(2):
+                _verif.set_sink(rec.sink)          # no scribbling from inside the iteration itself here
+                ret = s.sample()
+                _verif.set_sink(caller)
+                if scribble:
+                    pre = rec.snapshot(s.state)
+                    counts["scribbled_arrays"] += _scribble(ret, np, set())
+                    counts["accessor_calls"] += 1
+                    post = rec.snapshot(s.state)
+                    rec._emit("Accessor", name="Sampler.sample()", stable=bool(pre == post))
         except Exception as ex:
             rec.raised(ex)
     tr = rec.end_run()
